@@ -741,6 +741,9 @@ func (e *evalCtx) callExpr(x *sx) sval {
 	case "evcount":
 		hv := t.h.reg("ghost:"+args[0].val+".n", "Int")
 		return intv(t.h.get(e.st, hv))
+	case "isprint":
+		v := e.eval(args[0])
+		return boolv("(isprint " + v.term + ")")
 	case "called":
 		// called("Name"): this activation has called a function / method of that name
 		tag := t.c.declare("callee:"+args[0].val, "Int")
